@@ -398,7 +398,7 @@ func faultCaseBig(w *W, idx int, async bool) {
 
 func faultPlan(tier string) []Plan {
 	if tier == "thorough" {
-		return []Plan{{Cases: 96, Workers: 16, MaxProcs: 1, Timeout: 40 * time.Minute}, {Cases: 48, Workers: 8, MaxProcs: 4, Timeout: 40 * time.Minute}}
+		return []Plan{{Cases: 960, Workers: 16, MaxProcs: 1, Timeout: 90 * time.Minute}, {Cases: 320, Workers: 8, MaxProcs: 4, Timeout: 90 * time.Minute}}
 	}
 	return []Plan{{Cases: 24, Workers: 12, MaxProcs: 1, Timeout: 15 * time.Minute}, {Cases: 6, Workers: 6, MaxProcs: 4, Timeout: 15 * time.Minute}}
 }
